@@ -1,0 +1,15 @@
+//go:build !verif
+
+// Package verifhook provides observation and yield points for external runtime
+// monitors. Without the `verif` build tag every function is an empty stub that
+// the compiler inlines away.
+package verifhook
+
+// Enabled reports whether hooks are compiled in.
+const Enabled = false
+
+// Point marks a place where the calling goroutine may legitimately be descheduled.
+func Point(name string) {}
+
+// Observe reports a read-only observation.
+func Observe(name string, kv ...any) {}
